@@ -5,6 +5,7 @@ package main
 // that always contains its own declared type, the abstract bases and System names.
 
 import (
+	bcrpb "github.com/google/fhir/go/proto/google/fhir/proto/r4/core/resources/bundle_and_contained_resource_go_proto"
 	"google.golang.org/protobuf/reflect/protoregistry"
 	"google.golang.org/protobuf/reflect/protoreflect"
 	"sort"
@@ -253,6 +254,29 @@ func runC12(c *Ctx) {
 			}
 			return true
 		})
+		// only types that can occur in an R4 resource: reachable from the ContainedResource oneof through message-valued
+		// fields (the core package also holds profile artefacts such as CodingWithFixedCode, which are no FHIR types)
+		reach := map[protoreflect.FullName]bool{}
+		var visit func(d protoreflect.MessageDescriptor)
+		visit = func(d protoreflect.MessageDescriptor) {
+			if reach[d.FullName()] {
+				return
+			}
+			reach[d.FullName()] = true
+			for i := 0; i < d.Fields().Len(); i++ {
+				if f := d.Fields().Get(i); f.Kind() == protoreflect.MessageKind && f.Message() != nil {
+					visit(f.Message())
+				}
+			}
+		}
+		visit((&bcrpb.ContainedResource{}).ProtoReflect().Descriptor())
+		kept := mts[:0:0]
+		for _, mt := range mts {
+			if reach[mt.Descriptor().FullName()] {
+				kept = append(kept, mt)
+			}
+		}
+		mts = kept
 		sort.Slice(mts, func(i, j int) bool { return mts[i].Descriptor().FullName() < mts[j].Descriptor().FullName() })
 		shortCount := map[string]int{}
 		for _, mt := range mts {
